@@ -100,6 +100,7 @@ func genC04(g *Gen) {
 			g.do(Step{Op: "QFrames", Recv: gid})
 		}
 	})
+	g.d21Witness("GroupBy")
 	g.runsWithHoles("GroupBy", toBS("rid"))
 	g.keyProducts("GroupBy", toBS("rid"))
 	g.largeKeyed("GroupBy", toBS("rid"))
@@ -205,6 +206,7 @@ func genC05(g *Gen) {
 			g.do(Step{Op: "Distinct", Recv: f, Cols: bsList(k), Null: g.rng.Intn(2) == 0})
 		}
 	})
+	g.d21Witness("Distinct")
 	g.runsWithHoles("Distinct", rid)
 	g.keyProducts("Distinct", rid)
 	g.largeKeyed("Distinct", rid)
@@ -426,6 +428,30 @@ func (g *Gen) runsWithHoles(op string, rid BS) {
 				g.do(Step{Op: "Distinct", Recv: f, Cols: bsList([]string{key}), Rid: rid})
 			}
 		}
+		g.end()
+	}
+}
+
+// d21Witness: the recorded finding D21 (KNOWN_FINDINGS.jsonl): the built-in ToUpper on an enum column with
+// case variants leaves two codes for one string, and grouping goes by the code. Fixed inputs, no randomness.
+func (g *Gen) d21Witness(op string) {
+	for _, tc := range []struct{ decl, cells []string }{
+		{[]string{"a", "A", "b"}, []string{"a", "A", "b", "A", "a"}},
+		{nil, []string{"x", "X", "x"}},
+	} {
+		g.begin("D21 witness: enum ToUpper then " + op)
+		strs := make([]*BS, len(tc.cells))
+		for i, c := range tc.cells {
+			strs[i] = bsp(c)
+		}
+		var decl []BS
+		if tc.decl != nil {
+			decl = bsList(tc.decl)
+		}
+		f := g.do(Step{Op: "New", Recv: -1, HasOrder: true, ColOrder: bsList([]string{"E"}), HasEnums: true, Enums: []EnumDecl{{Name: toBS("E"), Vals: decl}},
+			Data: []ColData{{Name: toBS("E"), Kind: "string", Strs: strs}}})
+		u := g.do(Step{Op: "Apply", Recv: f, Instrs: []Instr{{Fn: FnRef{K: "builtin", Sym: "ToUpper"}, Dst: toBS("E"), Src1: toBS("E")}}})
+		g.do(Step{Op: op, Recv: u, Cols: bsList([]string{"E"}), Opts: []int{77}})
 		g.end()
 	}
 }
